@@ -74,6 +74,16 @@ def run(prop, tier, repo, short_patterns=()):
             todo.append(dict(name="%s/cover:lemma:%s" % (prop, name), kind="cover", carry=True, line=None,
                              smt2=s2.to_smt2(), function="(lemma)", source_sha=None, axioms=[]))
             out["lemmas"] += 1
+    # solver preference recorded with the baseline: (back end, seconds) per obligation name
+    try:
+        import json
+        bl = json.load(open(os.path.join(os.path.dirname(os.path.dirname(os.path.abspath(__file__))), "specs", "baseline", prop + ".json")))
+        pref = bl.get("backends", {})
+    except Exception:
+        pref = {}
+    for o in todo:
+        if o["name"] in pref and o["kind"] != "cover":
+            o["prefer"] = tuple(pref[o["name"]])
     import fnmatch
     for o in todo:
         if any(fnmatch.fnmatchcase(o["name"], pat.replace("[", "[[]")) for pat in short_patterns):
@@ -85,6 +95,7 @@ def run(prop, tier, repo, short_patterns=()):
         if o["kind"] == "cover" and r["verdict"] == "unsat":
             out["vacuous"].append("hypotheses contradictory at " + o["name"])
         o.pop("smt2")
+        o.pop("prefer", None)
         o.pop("smt2_rel", None)
         o.pop("smt2_cone", None)
         out["obligations"].append(o)
